@@ -32,6 +32,7 @@ def rebuilds(ctx, f, n, depth=2) -> bool:
 
 
 def run(ctx):
+    ctx.rule("R08.x", "context-manager model: _batch_call_watchers, batch_call_watchers, discard_events, _syncing and edit_constant interpreted abstractly with the body of the `with` supplied at the `yield` (62 cases: entry state x body ends normally / raises x nesting x queues replaced in the body x Parameter copies made in the body): flag, queues, syncing set and constant flags are, after the block, what they were before; the flush runs iff outermost, after the restore, also when the body raised", floor=1)
     ctx.rule("R08.a", "every function that removes or replaces an entry of the refs map rebuilds the ref watchers on the same path "
                       "(_setup_refs, directly or via a callee); a rebuild outside the constructor first unwatches and resets ref_watchers", floor=3)
     ctx.rule("R08.b", "every resolve_ref/resolve_value call in class Parameters that computes a link's dependencies or value passes recursive=<that parameter>.nested_refs", floor=5)
@@ -371,6 +372,8 @@ def run(ctx):
     link_model.report(ctx, "C08", "R08.l")
     from checks import trigger_model
     trigger_model.report(ctx, "C08", "R08.t")
+    from checks import cm_model
+    cm_model.report(ctx, "C08", "R08.x")
 
 
 def _enclosing(fnode, target):
